@@ -788,7 +788,7 @@ fn exact_cfgs(caps: &[usize], max_n: usize) -> Vec<Cfg> {
 pub fn check_c04(rep: &mut Report) {
     let mk = |_: &Cfg| Checks { step: Box::new(noop_step), terminal: Box::new(|s, c| { c04_terminal(s, c); observation(s) }) };
     // (i) reduced mode
-    let dl = deadline(rep, 150, 3000);
+    let dl = deadline(rep, 150, 1800);
     let out = sweep(oneshot_small(rep.thorough()), &mk, dl, 3_000_000);
     fill_report(rep, &out, "reduced: all graphs <=3 targets x requested lists <=2");
     let out = sweep(named4_for(rep.thorough()), &mk, dl, 3_000_000);
@@ -849,7 +849,7 @@ fn watch_cfgs(max_n: usize, max_roots: usize, budget: u32) -> Vec<Cfg> {
 
 pub fn check_c01(rep: &mut Report) {
     let mk = std_checks(c01_step, noop_term);
-    let dl = deadline(rep, 150, 3000);
+    let dl = deadline(rep, 150, 1800);
     let out = sweep(oneshot_small(rep.thorough()), &mk, dl, 3_000_000);
     fill_report(rep, &out, "one-shot, reduced: all graphs <=3 targets x requested lists <=2");
     let out = sweep(named4_for(rep.thorough()), &mk, dl, 3_000_000);
@@ -872,9 +872,9 @@ pub fn check_c01(rep: &mut Report) {
     let out = sweep(watch_cfgs(2, 2, if rep.thorough() { 2 } else { 1 }), &mk, dl, 3_000_000);
     fill_report(rep, &out, "watch, reduced: graphs <=2 targets, notification budget 1 (2 thorough)");
     let w3: Vec<Cfg> = watch_cfgs(3, 1, 1).into_iter().filter(|c| c.targets.len() == 3).collect();
-    let w3: Vec<Cfg> = if rep.thorough() { w3 } else { w3.into_iter().filter(|c| c.targets.iter().all(|t| t.kind != Kind::A || !t.deps.is_empty())).step_by(3).collect() };
+    let w3: Vec<Cfg> = if rep.thorough() { w3 } else { w3.into_iter().filter(|c| c.targets.iter().all(|t| t.kind != Kind::A || !t.deps.is_empty())).step_by(6).collect() };
     let out = sweep(w3, &mk, dl, 1_500_000);
-    fill_report(rep, &out, "watch, reduced: graphs with 3 targets, single root, budget 1 (quick: every third shape)");
+    fill_report(rep, &out, "watch, reduced: graphs with 3 targets, single root, budget 1 (quick: every sixth shape)");
     if rep.thorough() {
         let out = sweep(with_orders(shape_cfgs(4, 1)), &mk, dl, 3_000_000);
         fill_report(rep, &out, "one-shot, reduced: all graphs with 4 targets, single root");
@@ -884,7 +884,7 @@ pub fn check_c01(rep: &mut Report) {
 
 pub fn check_c07(rep: &mut Report) {
     let mk = std_checks(c07_step, c07_terminal);
-    let dl = deadline(rep, 150, 3000);
+    let dl = deadline(rep, 150, 1800);
     // every subset of failing builds: each build may fail or succeed (both outcomes at every finish)
     let mut v = vec![];
     let base: Vec<Cfg> = if rep.thorough() { small_cfgs(3, 2).into_iter().filter(distinct_roots).collect() } else { small_cfgs(2, 2).into_iter().filter(distinct_roots).chain(shape_cfgs(3, 1)).collect() };
@@ -944,7 +944,8 @@ pub fn check_c07(rep: &mut Report) {
     fill_report(rep, &out, "watch: every build may fail / one leaf cannot be launched, one later notification");
     // watch, three-target chains: the bottom is rebuilt and may fail, then the top's own input changes
     let mut v = vec![];
-    for kinds in [[Kind::B, Kind::S, Kind::B], [Kind::B, Kind::A, Kind::B], [Kind::B, Kind::B, Kind::B], [Kind::S, Kind::S, Kind::B], [Kind::S, Kind::B, Kind::B], [Kind::S, Kind::A, Kind::B]] {
+    let chains: Vec<[Kind; 3]> = if rep.thorough() { vec![[Kind::B, Kind::S, Kind::B], [Kind::B, Kind::A, Kind::B], [Kind::B, Kind::B, Kind::B], [Kind::S, Kind::S, Kind::B], [Kind::S, Kind::B, Kind::B], [Kind::S, Kind::A, Kind::B]] } else { vec![[Kind::B, Kind::S, Kind::B], [Kind::B, Kind::B, Kind::B], [Kind::S, Kind::A, Kind::B]] };
+    for kinds in chains {
         let mut c = cfg("watch-chain", vec![t("top", kinds[0], &["mid"]), t("mid", kinds[1], &["base"]), t("base", kinds[2], &[])], &["top"]);
         c.watch = true;
         c.notify_budget = 2;
@@ -973,7 +974,7 @@ pub fn check_c07(rep: &mut Report) {
 
 pub fn check_c08(rep: &mut Report) {
     let mk = std_checks(c08_step, c08_terminal);
-    let dl = deadline(rep, 150, 3000);
+    let dl = deadline(rep, 150, 1800);
     let out = sweep(oneshot_small(rep.thorough()), &mk, dl, 3_000_000);
     fill_report(rep, &out, "reduced: all graphs <=3 targets x requested lists <=2 (dependency together with dependent, both orders)");
     // duplicates in the requested list, lists up to 3
@@ -997,7 +998,7 @@ pub fn check_c08(rep: &mut Report) {
 
 pub fn check_c10(rep: &mut Report) {
     let mk = std_checks(c10_step, c10_terminal);
-    let dl = deadline(rep, 150, 3000);
+    let dl = deadline(rep, 150, 1800);
     // exact mode, signal at every state, afterwards no script ends by itself
     let mut v = vec![];
     // capacity 1 and 2 (thorough: also the real capacity 64, where nothing ever blocks)
@@ -1051,7 +1052,7 @@ pub fn check_c10(rep: &mut Report) {
     let out = sweep(v, &mk, dl, 3_000_000);
     fill_report(rep, &out, "reduced: graphs with 3 targets (quick: every fifth shape, single root), signal injected at every state, restricted afterwards");
     let mut v = vec![];
-    for c in named4_for(false).into_iter().filter(|c| rep.thorough() || ["agg-over-B+S", "nested-aggregates", "B-S-B-chain", "dep-before-dependent"].contains(&c.name.as_str())) {
+    for c in named4_for(false).into_iter().filter(|c| rep.thorough() || ["agg-over-B+S", "B-S-B-chain"].contains(&c.name.as_str())) {
         let mut e = c.clone();
         e.sigterm = true;
         e.freeze_after_exit_begins = true;
@@ -1080,7 +1081,7 @@ fn has_service(c: &Cfg) -> bool {
 
 pub fn check_c11(rep: &mut Report) {
     let mk = std_checks(c11_step, c11_terminal);
-    let dl = deadline(rep, 150, 3000);
+    let dl = deadline(rep, 150, 1800);
     let out = sweep(oneshot_small(rep.thorough()).into_iter().filter(has_service).collect(), &mk, dl, 3_000_000);
     fill_report(rep, &out, "one-shot, reduced: all graphs <=3 targets containing a service x requested lists <=2");
     let out = sweep(named4_for(rep.thorough()).into_iter().filter(has_service).collect(), &mk, dl, 3_000_000);
@@ -1108,7 +1109,7 @@ pub fn check_c11(rep: &mut Report) {
 }
 
 pub fn check_c17(rep: &mut Report) {
-    let dl = deadline(rep, 150, 3000);
+    let dl = deadline(rep, 150, 1800);
     // (1) restricted systems R_X
     let base: Vec<Cfg> = if rep.thorough() { oneshot_small(false).into_iter().chain(named4_for(false)).collect() } else { small_cfgs(2, 2).into_iter().filter(distinct_roots).chain(shape_cfgs(3, 1)).chain(named4_for(false).into_iter().filter(|c| c.name != "two-roots-sharing-leaf" && c.name != "diamond-S-middle")).collect() };
     let mut v = vec![];
@@ -1170,7 +1171,7 @@ pub fn check_c17(rep: &mut Report) {
 }
 
 pub fn check_c20(rep: &mut Report) {
-    let dl = deadline(rep, 150, 3000);
+    let dl = deadline(rep, 150, 1800);
     // configurations whose single root is an aggregate
     let mut base: Vec<Cfg> = small_cfgs(3, 1).into_iter().filter(|c| c.spec(&c.roots[0]).kind == Kind::A).collect();
     base.extend(named4().into_iter().filter(|c| c.roots.len() == 1 && c.spec(&c.roots[0]).kind == Kind::A));
@@ -1391,7 +1392,7 @@ pub fn c06_step(sys: &Sys, ev0: usize, ctx: &mut Ctx) {
 pub fn check_c06(rep: &mut Report) {
     crate::seq_watch::watch_startup(rep);
     let mk = std_checks(c06_step, c06_terminal);
-    let dl = deadline(rep, 150, 3000);
+    let dl = deadline(rep, 150, 1800);
     let out = sweep(c06_cfgs(rep.thorough()), &mk, dl, 2_000_000);
     fill_report(rep, &out, "watch mode, real incremental runner on real files, virtual watcher: every schedule x every placement of the changes");
     finalize(rep);
@@ -1488,7 +1489,7 @@ pub fn check_phases(rep: &mut Report, label: &str, prompt_exit: bool) {
             observation(s)
         }),
     };
-    let dl = deadline(rep, 150, 3000);
+    let dl = deadline(rep, 150, 1800);
     let out = sweep(phase_cfgs(rep.thorough()), &mk, dl, 2_000_000);
     fill_report(rep, &out, label);
 }
